@@ -276,6 +276,10 @@ def std_call(e, st, fr, fname, argv):
         _note(e, 'PartialOrd::lt..')
         k = cmp_val(e, st, e.load(st, argv[0]), e.load(st, argv[1]), bool(SIGNED_CMP.match(n)))
         return {'lt': k == 0, 'le': k <= 1, 'gt': k == 2, 'ge': k >= 1}[m.group(3)]
+    if re.match(r'^<&?bool as (std::ops::)?Not>::not$', n):
+        _note(e, 'bool::not')
+        v = deref_all(e, st, argv[0])
+        return z3.Not(v) if is_sym(v) else (not v)
     # ------------------------------------------------------------------ Clone / conversions
     if re.match(r'^<.* as Clone>::clone$', n):
         _note(e, 'Clone::clone(structural)')
@@ -368,6 +372,20 @@ def std_call(e, st, fr, fname, argv):
             it.i += 1
             return some(elem_ptr(it.vec, it.i - 1))
         return NONE()
+    if re.match(r'^<Vec<.*> as IntoIterator>::into_iter$', n):
+        _note(e, 'Vec::into_iter (by value)')
+        v = argv[0]
+        if not isinstance(v, VecV):
+            raise Unmodelled('Vec::into_iter on ' + repr(v))
+        return SliceIter(Ptr(Cell(v)))
+    if re.match(r'^<(std|alloc)::vec::IntoIter<.*> as Iterator>::next$', n):
+        _note(e, 'vec::IntoIter::next')
+        it = deref_all(e, st, argv[0])
+        v = e.load(st, it.vec)
+        if it.i < len(v.items):
+            it.i += 1
+            return some(v.items[it.i - 1])
+        return NONE()
     if re.match(r'^<(std|core)::slice::Iter<.*> as Iterator>::enumerate$', n):
         _note(e, 'Iter::enumerate')
         it = argv[0]
@@ -380,14 +398,14 @@ def std_call(e, st, fr, fname, argv):
         it.rev = True
         it.i = len(v.items)
         return it
-    if re.match(r'^<(std|core)::iter::Rev<(std|core)::slice::Iter<.*>> as Iterator>::next$', n):
+    if re.match(r'^<((std|core)::iter::)?Rev<(std|core)::slice::Iter<.*>> as Iterator>::next$', n):
         _note(e, 'Rev<Iter>::next')
         it = deref_all(e, st, argv[0])
         if it.i > 0:
             it.i -= 1
             return some(elem_ptr(it.vec, it.i))
         return NONE()
-    if re.match(r'^<(std|core)::iter::Enumerate<(std|core)::slice::Iter<.*>> as Iterator>::next$', n):
+    if re.match(r'^<((std|core)::iter::)?Enumerate<(std|core)::slice::Iter<.*>> as Iterator>::next$', n):
         _note(e, 'Enumerate<Iter>::next')
         it = deref_all(e, st, argv[0])
         v = e.load(st, it.vec)
@@ -395,7 +413,8 @@ def std_call(e, st, fr, fname, argv):
             it.i += 1
             return some(Tup([it.i - 1, elem_ptr(it.vec, it.i - 1)]))
         return NONE()
-    if re.match(r'^<I as IntoIterator>::into_iter$', n) or re.match(r'^<(std|core)::(slice::Iter|iter::Enumerate|iter::Rev)<.*> as IntoIterator>::into_iter$', n):
+    if re.match(r'^<I as IntoIterator>::into_iter$', n) or re.match(r'^<((std|core)::)?(slice::Iter|iter::Enumerate|iter::Rev|Enumerate|Rev|vec::IntoIter)<.*> as IntoIterator>::into_iter$', n) \
+            or n == '<SubTypePairIterator as IntoIterator>::into_iter':
         _note(e, 'IntoIterator identity')
         return argv[0]
     # ------------------------------------------------------------------ Option / Result / Try
@@ -442,7 +461,69 @@ def std_call(e, st, fr, fname, argv):
     if re.match(r'^<(std::option::)?Option<.*> as (std::ops::)?FromResidual<.*>>::from_residual$', n):
         _note(e, 'Option::from_residual')
         return NONE()
+    # ------------------------------------------------------------------ closures
+    if re.match(r'^core::bool::<impl bool>::then::<.*>$', n):
+        _note(e, 'bool::then')
+        b = argv[0]
+        if is_sym(b):
+            b = sym_bool_branch(st, b)
+        return some(e.call_closure(st, argv[1], [])) if b else NONE()
+    if re.match(r'^core::bool::<impl bool>::then_some::<.*>$', n):
+        _note(e, 'bool::then_some')
+        b = argv[0]
+        if is_sym(b):
+            b = sym_bool_branch(st, b)
+        return some(argv[1]) if b else NONE()
+    m = re.match(r'^(std::option::)?Option::<.*>::(map|and_then|unwrap_or_else|map_or|filter|or_else)::<.*>$', n)
+    if m:
+        _note(e, 'Option::' + m.group(2))
+        o = argv[0]
+        k = m.group(2)
+        if k == 'map':
+            return some(e.call_closure(st, argv[1], [o.fields[0]])) if o.variant == 'Some' else NONE()
+        if k == 'and_then':
+            return e.call_closure(st, argv[1], [o.fields[0]]) if o.variant == 'Some' else NONE()
+        if k == 'unwrap_or_else':
+            return o.fields[0] if o.variant == 'Some' else e.call_closure(st, argv[1], [])
+        if k == 'or_else':
+            return o if o.variant == 'Some' else e.call_closure(st, argv[1], [])
+        if k == 'map_or':
+            return e.call_closure(st, argv[2], [o.fields[0]]) if o.variant == 'Some' else argv[1]
+        if k == 'filter':
+            if o.variant == 'None':
+                return o
+            keep = e.call_closure(st, argv[1], [Ptr(Cell(o.fields[0]))])
+            if is_sym(keep):
+                keep = sym_bool_branch(st, keep)
+            return o if keep else NONE()
+    m = re.match(r'^<(std|core)::slice::Iter<.*> as Iterator>::(any|all)::<.*>$', n)
+    if m:
+        _note(e, 'Iter::' + m.group(2))
+        it = deref_all(e, st, argv[0])
+        v = e.load(st, it.vec)
+        want_any = m.group(2) == 'any'
+        while it.i < len(v.items):
+            it.i += 1
+            r = e.call_closure(st, argv[1], [elem_ptr(it.vec, it.i - 1)])
+            if is_sym(r):
+                r = sym_bool_branch(st, r)
+            if r and want_any:
+                return True
+            if not r and not want_any:
+                return False
+        return not want_any
+    if re.match(r'^<.* as (FnOnce|FnMut|Fn)<.*>>::(call_once|call_mut|call)$', n):
+        _note(e, 'Fn::call')
+        a = argv[1]
+        return e.call_closure(st, argv[0], list(a.xs) if isinstance(a, Tup) else [a])
     # ------------------------------------------------------------------ errors / formatting
+    if re.match(r'^must_use::<.*>$', n):
+        return argv[0]
+    if 'AdhocKind>::anyhow_kind' in n or 'anyhow_kind' in n:
+        return UNIT
+    if re.match(r'^(core::fmt::|std::fmt::)?Arguments::<.*>::(from_str|new_const|new_v1|new)', n):
+        _note(e, 'fmt::* -> opaque string')
+        return StrV(text='<fmt>')
     if n.startswith('anyhow::') or n.startswith('<anyhow::') or 'anyhow::Error' in n and 'from' in n:
         _note(e, 'anyhow::* -> opaque error token')
         return ErrTok()
